@@ -280,7 +280,8 @@ class Compliance(object):
     ITEMS = [('GROUP', 'grpA'), ('GROUP', 'grp-hy'), ('OBJECT', 'localObj'), ('GROUP', 'grpB')]
 
     def blocks(self, tier):
-        return [{'mname': m, 'two': t} for m in (None, LOCAL, REMOTE) for t in (0, 1)]
+        # 'two': 0 one MODULE part; 1 a named THIRD-MIB part after it; 2 the THIRD-MIB part before it; 3 between two others
+        return [{'mname': m, 'two': t} for m in (None, LOCAL, REMOTE) for t in (0, 1, 2, 3)]
 
     def cases(self, block, tier):
         maxlen = 3 if tier == 'thorough' else 2
@@ -307,14 +308,20 @@ class Compliance(object):
         if mand and case['mname'] == REMOTE:
             mand = ['remoteGroup'] + (['remoteGroup9'] if len(mand) > 1 else [])
         mods_ = [{'name': case['mname'], 'mandatory': mand, 'items': items}]
-        if case['two']:
-            mods_.append({'name': 'THIRD-MIB', 'mandatory': ['thirdGroup'], 'items': [('GROUP', 'thirdOptional', 'd')]})
+        third = {'name': 'THIRD-MIB', 'mandatory': ['thirdGroup'], 'items': [('GROUP', 'thirdOptional', 'd')]}
+        if case['two'] == 1:
+            mods_.append(third)
+        elif case['two'] == 2:
+            mods_.insert(0, third)
+        elif case['two'] == 3:
+            mods_ = [{'name': 'FOURTH-MIB', 'mandatory': ['fourthGroup'], 'items': []}, third] + mods_
         if not mand and not items:
             pass
         decls.append({'k': 'mc', 'name': 'subject', 'status': 'current', 'descr': 'd', 'modules': mods_, 'oid': ['ctxRoot', 9]})
         uni, mods, texts, out = compile_set(decls)
-        sig = 'C06|compliance|module=%s|%s' % ('unnamed' if case['mname'] is None else 'self' if case['mname'] == LOCAL else 'other',
-                                               'object-first' if items and items[0][0] == 'OBJECT' else 'plain')
+        sig = 'C06|compliance|module=%s|%s|parts=%d' % (
+            'unnamed' if case['mname'] is None else 'self' if case['mname'] == LOCAL else 'other',
+            'object-first' if items and items[0][0] == 'OBJECT' else 'plain', case['two'])
         vs = status_problem(out, texts, sig)
         if vs:
             return 'notcompiled', vs, 2
